@@ -269,7 +269,8 @@ def finish(pid, tier, results, t0, meta):
         code = 1
     elif undecided:
         # degraded run: the bounded stand-in decides (never reported as proof)
-        code = 0 if (bounded and all(r['verdict'] == 'proved' for r in bounded)) else 2
+        native = [r for r in bounded if r.get('backend') == 'native-enumeration']
+        code = 0 if (native and all(r['verdict'] == 'proved' for r in native)) else 2
     else:
         code = 0
 
